@@ -44,6 +44,21 @@ Proof. exists 2%nat. intros [|[|k]] Hk; try lia. reflexivity. Qed.
 Lemma Binop_ge fx x fy y st : Ev (fun k => binop_apply k OGe (VNum fx x) (VNum fy y) st) (ROk (VBool (q_leb y x)) st).
 Proof. exists 2%nat. intros [|[|k]] Hk; try lia. reflexivity. Qed.
 
+Lemma BinopS_lt x y st : Ev (fun k => binop_apply k OLt (VStr x) (VStr y) st) (ROk (VBool (str_ltb x y)) st).
+Proof. exists 2%nat. intros [|[|k]] Hk; try lia. reflexivity. Qed.
+Lemma BinopS_le x y st : Ev (fun k => binop_apply k OLe (VStr x) (VStr y) st) (ROk (VBool (str_leb x y)) st).
+Proof. exists 2%nat. intros [|[|k]] Hk; try lia. reflexivity. Qed.
+Lemma BinopS_gt x y st : Ev (fun k => binop_apply k OGt (VStr x) (VStr y) st) (ROk (VBool (str_ltb y x)) st).
+Proof. exists 2%nat. intros [|[|k]] Hk; try lia. reflexivity. Qed.
+Lemma BinopS_ge x y st : Ev (fun k => binop_apply k OGe (VStr x) (VStr y) st) (ROk (VBool (str_leb y x)) st).
+Proof. exists 2%nat. intros [|[|k]] Hk; try lia. reflexivity. Qed.
+
+(* the two orders on strings are the same function *)
+Lemma str_ltb_same : forall a b, Runtime.str_ltb a b = str_ltb a b.
+Proof. reflexivity. Qed.
+Lemma str_leb_same a b : Runtime.str_leb a b = str_leb a b.
+Proof. unfold Runtime.str_leb, str_leb. rewrite str_ltb_same. reflexivity. Qed.
+
 Lemma vrel_not_table sv lv : vrel sv lv -> not_table lv.
 Proof. intros []; exact I. Qed.
 
@@ -91,6 +106,77 @@ Proof.
     + eapply EvalList_cons; [discriminate | exact Ha | apply EvalList_one; exact Hb].
     + exact Hc.
   - eapply cells_ext_trans; [exact Hx1|]. eapply cells_ext_trans; [exact Hx2|]. apply cells_ext_add_state.
+Qed.
+
+(* type(x) == "string" for a string *)
+Lemma Eval_type_string_true (E : env) x c st s :
+  linv st -> sget x E = Some c -> sget "type"%string E = None -> get_cell st c = VStr s ->
+  Eval E (EBin OEq (ECall (EVar "type") [EVar x]) (EStr "string")) st (ROk (VBool true) st).
+Proof.
+  intros Hinv Hx Ht Hs.
+  eapply Eval_bin; [reflexivity | | apply Eval_str | ].
+  - apply (Eval_call E (EVar "type") [EVar x] st [VStr (type_name (get_cell st c))] st).
+    eapply EvalCall_intro.
+    + apply Eval_global; [exact Ht | apply (g_type _ (li_genv _ Hinv)) | reflexivity].
+    + apply EvalList_one. apply EvalMulti_single; [reflexivity|]. apply Eval_local. exact Hx.
+    + apply (Call_pure_builtin BType). exact I.
+  - cbn [first]. rewrite Hs. cbn [type_name].
+    change (VBool true) with (VBool (raw_eqb (VStr "string") (VStr "string"))).
+    apply Binop_eq_prim. left. exact I.
+Qed.
+
+(* __ADD(x, y) on two strings is their concatenation *)
+Theorem add_spec_str x y st :
+  linv st ->
+  Call (VFun add_id) [VStr x; VStr y] st (ROk [VStr (x ++ y)] (add_state (VStr x) (VStr y) st)).
+Proof.
+  intros Hinv.
+  set (va := VStr x). set (vb := VStr y).
+  pose proof (linv_add_state va vb st Hinv) as Hinv1.
+  set (st1 := add_state va vb st) in *. set (E1 := add_env st).
+  assert (Ha : sget "a"%string E1 = Some (s_ncell st)) by reflexivity.
+  assert (Hb : sget "b"%string E1 = Some (Pos.succ (s_ncell st))) by reflexivity.
+  assert (Ht : sget "type"%string E1 = None) by reflexivity.
+  eapply (Call_closure add_id add_closure); [apply (c_add _ (li_cenv _ Hinv)) | apply add_bind | ].
+  cbn [c_body add_closure]. fold E1 st1.
+  apply ExecBlock_of_ExecS; [ | repeat constructor | intros []].
+  apply XS_stop; [|intros []].
+  eapply (Exec_if E1 _ _ _ st1 (VBool true) st1 E1 (SigReturn [VStr (x ++ y)]) st1).
+  - eapply Eval_and.
+    + apply (Eval_type_string_true E1 "a" (s_ncell st) st1 x Hinv1 Ha Ht). unfold st1. apply get_cell_add_a.
+    + cbn [truthy]. apply (Eval_type_string_true E1 "b" (Pos.succ (s_ncell st)) st1 y Hinv1 Hb Ht). unfold st1. apply get_cell_add_b.
+  - cbn [truthy]. apply ExecBlock_of_ExecS; [ | repeat constructor | intros []].
+    apply XS_stop; [|intros []].
+    apply Exec_return. apply EvalList_one. apply EvalMulti_single; [reflexivity|].
+    eapply Eval_bin; [reflexivity | apply Eval_local; exact Ha | apply Eval_local; exact Hb | ].
+    unfold st1. rewrite get_cell_add_a, get_cell_add_b. unfold va, vb.
+    exists 1%nat. intros [|k] Hk; [lia|]. reflexivity.
+Qed.
+
+Lemma PureEval_adds E st xa xb x y st1 st2 :
+  wfenv E st -> linv st ->
+  Eval E xa st (ROk (VStr x) st1) -> cells_ext st st1 ->
+  EvalMulti E xb st1 (ROk [VStr y] st2) -> cells_ext st1 st2 ->
+  PureEval E st (acall "__ADD" [xa; xb]) (VStr (x ++ y)).
+Proof.
+  intros Hwf Hl Ha Hx1 Hb Hx2.
+  assert (Hl2 : linv st2) by (eapply cells_ext_linv; [|exact Hl]; eapply cells_ext_trans; eassumption).
+  pose proof (add_spec_str x y st2 Hl2) as Hc.
+  eapply PureEval_call.
+  - eapply EvalCall_intro.
+    + apply Eval_global.
+      * eapply sget_not_V; [exact Hwf | apply not_fmt_var_add].
+      * apply (g_add _ (li_genv _ Hl)).
+      * reflexivity.
+    + eapply EvalList_cons; [discriminate | exact Ha | apply EvalList_one; exact Hb].
+    + exact Hc.
+  - eapply cells_ext_trans; [exact Hx1|]. eapply cells_ext_trans; [exact Hx2|]. apply cells_ext_add_state.
+Qed.
+
+Lemma denotes_str F E st s : denotes F E st (LuaAst.EStr s) (SV (Values.VStr s)).
+Proof.
+  intros E2 st2 _ _ _. exists (VStr s). split; [constructor|].
+  apply (PureEval_noncall _ _ _ _ st2); [reflexivity | apply Eval_str | apply cells_ext_refl].
 Qed.
 
 (* ------------------------------------------------------------------ binary operators *)
@@ -170,27 +256,39 @@ Proof.
     + rewrite (vrel_raw_eqb _ _ _ _ Hva Hvb). constructor.
   - (* > *)
     inversion Hva; subst; inversion Hvb; subst; cbn in Hv; try discriminate Hv; inversion Hv; subst.
-    apply (Hpar OGt (VBool (q_ltb (q_int z0) (q_int z)))); [reflexivity | apply Binop_gt | constructor].
+    + apply (Hpar OGt (VBool (q_ltb (q_int z0) (q_int z)))); [reflexivity | apply Binop_gt | constructor].
+    + eapply (Hpar OGt); [reflexivity | apply BinopS_gt | constructor].
   - (* >= *)
     inversion Hva; subst; inversion Hvb; subst; cbn in Hv; try discriminate Hv; inversion Hv; subst.
-    apply (Hpar OGe (VBool (q_leb (q_int z0) (q_int z)))); [reflexivity | apply Binop_ge | constructor].
+    + apply (Hpar OGe (VBool (q_leb (q_int z0) (q_int z)))); [reflexivity | apply Binop_ge | constructor].
+    + eapply (Hpar OGe); [reflexivity | apply BinopS_ge | constructor].
   - (* < *)
     inversion Hva; subst; inversion Hvb; subst; cbn in Hv; try discriminate Hv; inversion Hv; subst.
-    apply (Hpar OLt (VBool (q_ltb (q_int z) (q_int z0)))); [reflexivity | apply Binop_lt | constructor].
+    + apply (Hpar OLt (VBool (q_ltb (q_int z) (q_int z0)))); [reflexivity | apply Binop_lt | constructor].
+    + eapply (Hpar OLt); [reflexivity | apply BinopS_lt | constructor].
   - (* <= *)
     inversion Hva; subst; inversion Hvb; subst; cbn in Hv; try discriminate Hv; inversion Hv; subst.
-    apply (Hpar OLe (VBool (q_leb (q_int z) (q_int z0)))); [reflexivity | apply Binop_le | constructor].
+    + apply (Hpar OLe (VBool (q_leb (q_int z) (q_int z0)))); [reflexivity | apply Binop_le | constructor].
+    + eapply (Hpar OLe); [reflexivity | apply BinopS_le | constructor].
   - (* + *)
-    inversion Hva; subst; inversion Hvb; subst; cbn in Hv; try discriminate Hv; inversion Hv; subst.
-    exists (VNum false (q_int (z + z0))). split; [constructor|].
-    eapply PureEval_add; eassumption.
+    inversion Hva; subst; inversion Hvb; subst; cbn in Hv; try discriminate Hv;
+      try (repeat (match type of Hv with context [Runtime.has_digit ?x] => destruct (Runtime.has_digit x); cbn in Hv end); discriminate Hv);
+      inversion Hv; subst.
+    + exists (VNum false (q_int (z + z0))). split; [constructor|].
+      eapply PureEval_add; eassumption.
+    + eexists. split; [constructor|].
+      eapply PureEval_adds; eassumption.
   - (* - *)
-    inversion Hva; subst; inversion Hvb; subst; cbn in Hv; try discriminate Hv; inversion Hv; subst.
+    inversion Hva; subst; inversion Hvb; subst; cbn in Hv; try discriminate Hv;
+      try (repeat (match type of Hv with context [Runtime.has_digit ?x] => destruct (Runtime.has_digit x); cbn in Hv end); discriminate Hv);
+      inversion Hv; subst.
     apply (Hpar OSub (VNum false (q_int (z - z0)))); [reflexivity | | constructor].
     match goal with |- Ev _ ?r => replace r with (arith_num OSub false (q_int z) false (q_int z0) st4) end;
       [apply Binop_arith; exact I | cbn [arith_num]; unfold mknum; rewrite Hd; reflexivity].
   - (* * *)
-    inversion Hva; subst; inversion Hvb; subst; cbn in Hv; try discriminate Hv; inversion Hv; subst.
+    inversion Hva; subst; inversion Hvb; subst; cbn in Hv; try discriminate Hv;
+      try (repeat (match type of Hv with context [Runtime.has_digit ?x] => destruct (Runtime.has_digit x); cbn in Hv end); discriminate Hv);
+      inversion Hv; subst.
     apply (Hpar OMul (VNum false (q_int (z * z0)))); [reflexivity | | constructor].
     match goal with |- Ev _ ?r => replace r with (arith_num OMul false (q_int z) false (q_int z0) st4) end;
       [apply Binop_arith; exact I | cbn [arith_num]; unfold mknum; rewrite Hd; reflexivity].
